@@ -36,6 +36,11 @@ def run(ck):
         ck.guard("C07-R10", r4_merge_once, ck, F, "C07-R10")
         ck.guard("C07-R10", r5_pop_push, ck, F, "C07-R10")
         ck.guard("C07-R10", r6_stream, ck, F, "C07-R10")
+        # every chunk is written through Writer / CountWrite into the user's chunk storage and read back from it: the
+        # offsets recorded in a chunk are right only if the counter adds what the sink accepted (shared with C11-R1/R2)
+        from .c11 import r1_write_all, r2_count_accepted
+        ck.guard("C07-R12", r2_count_accepted, ck, F, "C07-R12")
+        ck.guard("C07-R12", r1_write_all, ck, F, "C07-R12")
     ck.trusted += ["rustc MIR construction", "std / rayon sorting contracts", "BinaryHeap"]
 
 
